@@ -322,13 +322,29 @@ impl R2 {
         }
     }
 
-    /// All feeds publish "now"; every token keeps the price it last published (initially the nominal one).
+    /// All feeds publish "now"; every token keeps the price and spread it last published (initially
+    /// the nominal price without spread).
     pub fn refresh_prices(&self, w: &mut World) {
         let (ts, slot) = w.clock();
+        let n = std::mem::size_of::<PriceFeed>();
         for t in &self.toks {
-            let p = self.current_price(w, t);
-            self.set_price(w, t, p, 0, ts, slot);
+            let stored = w.account(&t.feed).map(|acc| bytemuck::pod_read_unaligned::<PriceFeed>(&acc.data[8..8 + n]));
+            let (p, lo, hi) = match stored {
+                Some(pf) if *pf.price().price() != 0 => (*pf.price().price(), *pf.price().min_price(), *pf.price().max_price()),
+                _ => {
+                    let p = t.price as u128 * 100_000_000;
+                    (p, p, p)
+                }
+            };
+            let spread_bp = ((hi - lo) * 10_000 / (2 * p)) as u64;
+            self.set_price(w, t, (p / 100_000_000) as u64, spread_bp, ts, slot);
         }
+    }
+
+    /// the feed of token `ti` publishes price +- spread "now" (later `refresh_prices` keep both)
+    pub fn set_token_price_spread(&self, w: &mut World, ti: usize, usd: u64, spread_bp: u64) {
+        let (ts, slot) = w.clock();
+        self.set_price(w, &self.toks[ti], usd, spread_bp, ts, slot);
     }
 
     /// the feed of token `ti` publishes a new price "now" (later `refresh_prices` keep it)
@@ -2438,5 +2454,390 @@ impl R2 {
         }
         let size = self.open_position(w, user, mi, is_long, col_long).map(|x| x.1).unwrap_or(0);
         self.flow_cut(w, rec, user, mi, is_long, col_long, &nonce(10), if adl { Some(size) } else { None });
+    }
+}
+
+// =====================================================================================================
+// GLV: initialize_glv, market config, GLV deposits / withdrawals (GLV token = Token-2022 mint).
+pub const TOKEN_2022: Pubkey = anchor_spl::token_2022::spl_token_2022::ID;
+
+#[derive(Clone, Debug)]
+pub struct GlvEnv {
+    pub index: u16,
+    pub glv: Pubkey,
+    pub glv_token: Pubkey,
+    /// market indices (into R2::mkts) in the order the GLV stores them (sorted by market token address)
+    pub markets: Vec<usize>,
+}
+
+pub fn ata22(owner: &Pubkey, mint: &Pubkey) -> Pubkey {
+    spl_associated_token_account::get_associated_token_address_with_program_id(owner, mint, &TOKEN_2022)
+}
+pub fn ata22_ix(payer: &Pubkey, owner: &Pubkey, mint: &Pubkey) -> Instruction {
+    spl_associated_token_account::instruction::create_associated_token_account_idempotent(payer, owner, mint, &TOKEN_2022)
+}
+/// balance of a Token-2022 account
+pub fn balance22(w: &World, account: &Pubkey) -> u64 {
+    use anchor_lang::solana_program::program_pack::Pack;
+    w.account_bytes(account).and_then(|d| spl_token::state::Account::unpack(d.get(..spl_token::state::Account::LEN)?).ok()).map(|a| a.amount).unwrap_or(0)
+}
+
+impl R2 {
+    pub fn glv_addresses(&self, index: u16) -> (Pubkey, Pubkey) {
+        use gmsol_store::states::Glv;
+        let glv_token = Pubkey::find_program_address(&[Glv::GLV_TOKEN_SEED, self.store.as_ref(), &index.to_le_bytes()], &gmsol_store::ID).0;
+        let glv = Pubkey::find_program_address(&[Glv::SEED, glv_token.as_ref()], &gmsol_store::ID).0;
+        (glv, glv_token)
+    }
+
+    /// `initialize_glv(index)` over the given markets (by index into `mkts`)
+    pub fn initialize_glv_ix(&self, index: u16, markets: &[usize]) -> (Instruction, GlvEnv) {
+        let (glv, glv_token) = self.glv_addresses(index);
+        let mut sorted: Vec<usize> = markets.to_vec();
+        sorted.sort_by_key(|i| self.mkts[*i].market_token);
+        let mut ix = st::ix(
+            gmsol_store::accounts::InitializeGlv {
+                authority: self.keeper,
+                store: self.store,
+                glv_token,
+                glv,
+                system_program: system_program::ID,
+                token_program: TOKEN_2022,
+                market_token_program: spl_token::ID,
+                associated_token_program: spl_associated_token_account::ID,
+            },
+            gmsol_store::instruction::InitializeGlv { index, length: markets.len() as u16 },
+        );
+        // markets (as given), then market tokens and vaults in the GLV's (sorted) order
+        for i in markets {
+            ix.accounts.push(AccountMeta::new_readonly(self.mkts[*i].market, false));
+        }
+        for i in &sorted {
+            ix.accounts.push(AccountMeta::new_readonly(self.mkts[*i].market_token, false));
+        }
+        for i in &sorted {
+            ix.accounts.push(AccountMeta::new(spl::ata(&glv, &self.mkts[*i].market_token), false));
+        }
+        (ix, GlvEnv { index, glv, glv_token, markets: sorted })
+    }
+
+    pub fn glv_market_config_ix(&self, g: &GlvEnv, mi: usize, max_amount: Option<u64>, max_value: Option<u128>) -> Instruction {
+        st::ix(
+            gmsol_store::accounts::UpdateGlvMarketConfig { authority: self.keeper, store: self.store, glv: g.glv, market_token: self.mkts[mi].market_token },
+            gmsol_store::instruction::UpdateGlvMarketConfig { max_amount, max_value },
+        )
+    }
+
+    pub fn glv_market_flag_ix(&self, g: &GlvEnv, mi: usize, flag: &str, enable: bool) -> Instruction {
+        st::ix(
+            gmsol_store::accounts::UpdateGlvMarketConfig { authority: self.keeper, store: self.store, glv: g.glv, market_token: self.mkts[mi].market_token },
+            gmsol_store::instruction::ToggleGlvMarketFlag { flag: flag.to_string(), enable },
+        )
+    }
+
+    /// `insert_glv_market` of market `mi`
+    pub fn insert_glv_market_ix(&self, g: &GlvEnv, mi: usize) -> Instruction {
+        let m = &self.mkts[mi];
+        st::ix(
+            gmsol_store::accounts::InsertGlvMarket {
+                authority: self.keeper,
+                store: self.store,
+                glv: g.glv,
+                market_token: m.market_token,
+                market: m.market,
+                vault: spl::ata(&g.glv, &m.market_token),
+                system_program: system_program::ID,
+                token_program: spl_token::ID,
+                associated_token_program: spl_associated_token_account::ID,
+            },
+            gmsol_store::instruction::InsertGlvMarket {},
+        )
+    }
+
+    /// remaining accounts of execute_glv_*: N markets, N market tokens (GLV order), feeds of the tokens
+    /// (long, short and every market's index token, sorted), no swap markets
+    fn glv_remaining(&self, g: &GlvEnv) -> Vec<AccountMeta> {
+        let mut v = Vec::new();
+        for i in &g.markets {
+            v.push(AccountMeta::new(self.mkts[*i].market, false));
+        }
+        for i in &g.markets {
+            v.push(AccountMeta::new_readonly(self.mkts[*i].market_token, false));
+        }
+        let mut tokens: Vec<Pubkey> = Vec::new();
+        for i in &g.markets {
+            let m = &self.mkts[*i];
+            for t in [m.index, m.long, m.short] {
+                tokens.push(self.toks[t].mint);
+            }
+        }
+        tokens.sort();
+        tokens.dedup();
+        for t in tokens {
+            v.push(AccountMeta::new_readonly(self.tok_by_mint(&t).map(|t| t.feed).unwrap_or_default(), false));
+        }
+        v
+    }
+
+    pub fn glv_deposit_pda(&self, owner: &Pubkey, nonce: &[u8; 32]) -> Pubkey {
+        use gmsol_store::states::GlvDeposit;
+        Pubkey::find_program_address(&[GlvDeposit::SEED, self.store.as_ref(), owner.as_ref(), nonce], &gmsol_store::ID).0
+    }
+    pub fn glv_withdrawal_pda(&self, owner: &Pubkey, nonce: &[u8; 32]) -> Pubkey {
+        use gmsol_store::states::GlvWithdrawal;
+        Pubkey::find_program_address(&[GlvWithdrawal::SEED, self.store.as_ref(), owner.as_ref(), nonce], &gmsol_store::ID).0
+    }
+
+    /// escrow accounts + `create_glv_deposit`: `market_token_amount` market tokens of market `mi` and / or
+    /// `long_amount` / `short_amount` of the market's long / short token (which the execution first deposits into the market)
+    #[allow(clippy::too_many_arguments)]
+    pub fn create_glv_deposit(&self, w: &mut World, owner: &Pubkey, g: &GlvEnv, mi: usize, nonce: &[u8; 32], market_token_amount: u64, long_amount: u64, short_amount: u64, min_glv: u64) -> ExecResult {
+        let m = &self.mkts[mi];
+        let d = self.glv_deposit_pda(owner, nonce);
+        let (lt, stk) = (self.toks[m.long].mint, self.toks[m.short].mint);
+        let ixs = vec![
+            ata22_ix(owner, &d, &g.glv_token),
+            ata_ix(owner, &d, &m.market_token),
+            ata_ix(owner, &d, &lt),
+            ata_ix(owner, &d, &stk),
+            st::ix(
+                gmsol_store::accounts::CreateGlvDeposit {
+                    owner: *owner,
+                    receiver: *owner,
+                    store: self.store,
+                    market: m.market,
+                    glv: g.glv,
+                    glv_deposit: d,
+                    glv_token: g.glv_token,
+                    market_token: m.market_token,
+                    initial_long_token: Some(lt),
+                    initial_short_token: Some(stk),
+                    market_token_source: Some(spl::ata(owner, &m.market_token)),
+                    initial_long_token_source: Some(spl::ata(owner, &lt)),
+                    initial_short_token_source: Some(spl::ata(owner, &stk)),
+                    glv_token_escrow: ata22(&d, &g.glv_token),
+                    market_token_escrow: spl::ata(&d, &m.market_token),
+                    initial_long_token_escrow: Some(spl::ata(&d, &lt)),
+                    initial_short_token_escrow: Some(spl::ata(&d, &stk)),
+                    system_program: system_program::ID,
+                    token_program: spl_token::ID,
+                    glv_token_program: TOKEN_2022,
+                    associated_token_program: spl_associated_token_account::ID,
+                },
+                gmsol_store::instruction::CreateGlvDeposit {
+                    nonce: *nonce,
+                    params: gmsol_store::ops::glv::CreateGlvDepositParams {
+                        execution_lamports: EXEC_LAMPORTS,
+                        long_token_swap_length: 0,
+                        short_token_swap_length: 0,
+                        initial_long_token_amount: long_amount,
+                        initial_short_token_amount: short_amount,
+                        market_token_amount,
+                        min_market_token_amount: 0,
+                        min_glv_token_amount: min_glv,
+                        should_unwrap_native_token: false,
+                    },
+                },
+            ),
+        ];
+        w.execute_tx(&ixs, &[*owner])
+    }
+
+    pub fn execute_glv_deposit_ix(&self, g: &GlvEnv, mi: usize, d: &Pubkey, throw: bool) -> Instruction {
+        let m = &self.mkts[mi];
+        let (lt, stk) = (self.toks[m.long].mint, self.toks[m.short].mint);
+        let mut ix = st::ix(
+            gmsol_store::accounts::ExecuteGlvDeposit {
+                authority: self.keeper,
+                store: self.store,
+                token_map: self.token_map,
+                oracle: self.oracle,
+                glv: g.glv,
+                market: m.market,
+                glv_deposit: *d,
+                glv_token: g.glv_token,
+                market_token: m.market_token,
+                initial_long_token: Some(lt),
+                initial_short_token: Some(stk),
+                glv_token_escrow: ata22(d, &g.glv_token),
+                market_token_escrow: spl::ata(d, &m.market_token),
+                initial_long_token_escrow: Some(spl::ata(d, &lt)),
+                initial_short_token_escrow: Some(spl::ata(d, &stk)),
+                initial_long_token_vault: Some(market_vault_pda(&self.store, &lt)),
+                initial_short_token_vault: Some(market_vault_pda(&self.store, &stk)),
+                market_token_vault: spl::ata(&g.glv, &m.market_token),
+                token_program: spl_token::ID,
+                glv_token_program: TOKEN_2022,
+                system_program: system_program::ID,
+                chainlink_program: None,
+                event_authority: st::event_authority(&gmsol_store::ID),
+                program: gmsol_store::ID,
+            },
+            gmsol_store::instruction::ExecuteGlvDeposit { execution_lamports: EXEC_FEE, throw_on_execution_error: throw },
+        );
+        ix.accounts.extend(self.glv_remaining(g));
+        payer_writable(&mut ix, &self.keeper);
+        ix
+    }
+
+    pub fn close_glv_deposit(&self, w: &mut World, executor: &Pubkey, owner: &Pubkey, g: &GlvEnv, mi: usize, d: &Pubkey) -> ExecResult {
+        let m = &self.mkts[mi];
+        let (lt, stk) = (self.toks[m.long].mint, self.toks[m.short].mint);
+        let mut ixs = vec![ata22_ix(executor, owner, &g.glv_token)];
+        let mut ix = st::ix(
+            gmsol_store::accounts::CloseGlvDeposit {
+                executor: *executor,
+                store: self.store,
+                store_wallet: self.store_wallet,
+                owner: *owner,
+                receiver: *owner,
+                glv_deposit: *d,
+                market_token: m.market_token,
+                initial_long_token: Some(lt),
+                initial_short_token: Some(stk),
+                glv_token: g.glv_token,
+                market_token_escrow: spl::ata(d, &m.market_token),
+                initial_long_token_escrow: Some(spl::ata(d, &lt)),
+                initial_short_token_escrow: Some(spl::ata(d, &stk)),
+                glv_token_escrow: ata22(d, &g.glv_token),
+                market_token_ata: spl::ata(owner, &m.market_token),
+                initial_long_token_ata: Some(spl::ata(owner, &lt)),
+                initial_short_token_ata: Some(spl::ata(owner, &stk)),
+                glv_token_ata: ata22(owner, &g.glv_token),
+                system_program: system_program::ID,
+                token_program: spl_token::ID,
+                glv_token_program: TOKEN_2022,
+                associated_token_program: spl_associated_token_account::ID,
+                event_authority: st::event_authority(&gmsol_store::ID),
+                program: gmsol_store::ID,
+            },
+            gmsol_store::instruction::CloseGlvDeposit { reason: "verif".into() },
+        );
+        payer_writable(&mut ix, executor);
+        ixs.push(ix);
+        w.execute_tx(&ixs, &[*executor])
+    }
+
+    /// escrow accounts + `create_glv_withdrawal` of `glv_amount` GLV tokens through market `mi`
+    pub fn create_glv_withdrawal(&self, w: &mut World, owner: &Pubkey, g: &GlvEnv, mi: usize, nonce: &[u8; 32], glv_amount: u64) -> ExecResult {
+        let m = &self.mkts[mi];
+        let wd = self.glv_withdrawal_pda(owner, nonce);
+        let (lt, stk) = (self.toks[m.long].mint, self.toks[m.short].mint);
+        let ixs = vec![
+            ata22_ix(owner, &wd, &g.glv_token),
+            ata_ix(owner, &wd, &m.market_token),
+            ata_ix(owner, &wd, &lt),
+            ata_ix(owner, &wd, &stk),
+            st::ix(
+                gmsol_store::accounts::CreateGlvWithdrawal {
+                    owner: *owner,
+                    receiver: *owner,
+                    store: self.store,
+                    market: m.market,
+                    glv: g.glv,
+                    glv_withdrawal: wd,
+                    glv_token: g.glv_token,
+                    market_token: m.market_token,
+                    final_long_token: lt,
+                    final_short_token: stk,
+                    glv_token_source: ata22(owner, &g.glv_token),
+                    glv_token_escrow: ata22(&wd, &g.glv_token),
+                    market_token_escrow: spl::ata(&wd, &m.market_token),
+                    final_long_token_escrow: spl::ata(&wd, &lt),
+                    final_short_token_escrow: spl::ata(&wd, &stk),
+                    system_program: system_program::ID,
+                    token_program: spl_token::ID,
+                    glv_token_program: TOKEN_2022,
+                    associated_token_program: spl_associated_token_account::ID,
+                },
+                gmsol_store::instruction::CreateGlvWithdrawal {
+                    nonce: *nonce,
+                    params: gmsol_store::ops::glv::CreateGlvWithdrawalParams {
+                        execution_lamports: EXEC_LAMPORTS,
+                        long_token_swap_length: 0,
+                        short_token_swap_length: 0,
+                        glv_token_amount: glv_amount,
+                        min_final_long_token_amount: 0,
+                        min_final_short_token_amount: 0,
+                        should_unwrap_native_token: false,
+                    },
+                },
+            ),
+        ];
+        w.execute_tx(&ixs, &[*owner])
+    }
+
+    pub fn execute_glv_withdrawal_ix(&self, g: &GlvEnv, mi: usize, wd: &Pubkey, throw: bool) -> Instruction {
+        let m = &self.mkts[mi];
+        let (lt, stk) = (self.toks[m.long].mint, self.toks[m.short].mint);
+        let mut ix = st::ix(
+            gmsol_store::accounts::ExecuteGlvWithdrawal {
+                authority: self.keeper,
+                store: self.store,
+                token_map: self.token_map,
+                oracle: self.oracle,
+                glv: g.glv,
+                market: m.market,
+                glv_withdrawal: *wd,
+                glv_token: g.glv_token,
+                market_token: m.market_token,
+                final_long_token: lt,
+                final_short_token: stk,
+                glv_token_escrow: ata22(wd, &g.glv_token),
+                market_token_escrow: spl::ata(wd, &m.market_token),
+                final_long_token_escrow: spl::ata(wd, &lt),
+                final_short_token_escrow: spl::ata(wd, &stk),
+                market_token_withdrawal_vault: m.mt_vault,
+                final_long_token_vault: market_vault_pda(&self.store, &lt),
+                final_short_token_vault: market_vault_pda(&self.store, &stk),
+                market_token_vault: spl::ata(&g.glv, &m.market_token),
+                token_program: spl_token::ID,
+                glv_token_program: TOKEN_2022,
+                system_program: system_program::ID,
+                chainlink_program: None,
+                event_authority: st::event_authority(&gmsol_store::ID),
+                program: gmsol_store::ID,
+            },
+            gmsol_store::instruction::ExecuteGlvWithdrawal { execution_lamports: EXEC_FEE, throw_on_execution_error: throw },
+        );
+        ix.accounts.extend(self.glv_remaining(g));
+        payer_writable(&mut ix, &self.keeper);
+        ix
+    }
+
+    pub fn close_glv_withdrawal(&self, w: &mut World, executor: &Pubkey, owner: &Pubkey, g: &GlvEnv, mi: usize, wd: &Pubkey) -> ExecResult {
+        let m = &self.mkts[mi];
+        let (lt, stk) = (self.toks[m.long].mint, self.toks[m.short].mint);
+        let mut ix = st::ix(
+            gmsol_store::accounts::CloseGlvWithdrawal {
+                executor: *executor,
+                store: self.store,
+                store_wallet: self.store_wallet,
+                owner: *owner,
+                receiver: *owner,
+                glv_withdrawal: *wd,
+                market_token: m.market_token,
+                final_long_token: lt,
+                final_short_token: stk,
+                glv_token: g.glv_token,
+                market_token_escrow: spl::ata(wd, &m.market_token),
+                final_long_token_escrow: spl::ata(wd, &lt),
+                final_short_token_escrow: spl::ata(wd, &stk),
+                market_token_ata: spl::ata(owner, &m.market_token),
+                final_long_token_ata: spl::ata(owner, &lt),
+                final_short_token_ata: spl::ata(owner, &stk),
+                glv_token_escrow: ata22(wd, &g.glv_token),
+                glv_token_ata: ata22(owner, &g.glv_token),
+                system_program: system_program::ID,
+                token_program: spl_token::ID,
+                glv_token_program: TOKEN_2022,
+                associated_token_program: spl_associated_token_account::ID,
+                event_authority: st::event_authority(&gmsol_store::ID),
+                program: gmsol_store::ID,
+            },
+            gmsol_store::instruction::CloseGlvWithdrawal { reason: "verif".into() },
+        );
+        payer_writable(&mut ix, executor);
+        w.execute(&ix, &[*executor])
     }
 }
